@@ -23,6 +23,7 @@ META = {
     "assumptions": [],
 }
 META["explanation"] += ' HAZARD: constructs that do not mean what they look like, met in the analysed code (defaults evaluated once, class-level containers changed through self, dict.fromkeys with a shared mutable value, late-binding lambdas, truth value of objects that define __len__) are reported by every check.'
+META["explanation"] += ' Round 6: DEP-C14 WIRING / RIVER and DEP-C13 PAIR; contributions held by an object of a package class are not decided.'
 MIN_INSTANCES = {"FORMULA": 3, "ORDER": 1, "COUNT": 3, "SAME": 2}
 CLS = "IncrementalPFI"
 
